@@ -921,7 +921,13 @@ class Fxp():
                     new_val = new_val.astype(np.int64 if self.signed else np.uint64)
             
             if index is not None:
-                self.val[index] = new_val
+                if isinstance(self.val, np.ndarray):
+                    self.val[index] = new_val
+                else:
+                    # (the value of a scalar complex object - or of an element taken out of an array - is a numpy scalar, which cannot be written into)
+                    _val = np.array(self.val)
+                    _val[index] = new_val
+                    self.val = _val[()]
             else:
                 self.val = new_val
 
@@ -964,7 +970,13 @@ class Fxp():
             new_val = new_val_real + 1j * new_val_imag
 
             if index is not None:
-                self.val[index] = new_val
+                if isinstance(self.val, np.ndarray):
+                    self.val[index] = new_val
+                else:
+                    # (the value of a scalar complex object is a numpy scalar, which cannot be written into)
+                    _val = np.array(self.val)
+                    _val[index] = new_val
+                    self.val = _val[()]
             else:
                 self.val = new_val
 
